@@ -32,6 +32,21 @@ def put(doc, name, body):
     assert pat.search(doc), name
     return pat.sub(lambda m: m.group(1) + "\n" + body + "\n" + m.group(2), doc)
 
+import sys
+sys.path.insert(0, ROOT)
+from checks_table import CHECKS
+rows = ["| property | sub-check | driver | cases in the last quick run | distinct non-trivial | complete enumeration |", "|---|---|---|---|---|---|"]
+for pid in sorted(CHECKS):
+    path = os.path.join(ROOT, "evidence", pid + ".json")
+    if not os.path.exists(path):
+        continue
+    ev = json.load(open(path))
+    if ev.get("tier") != "quick":
+        continue
+    for sc in ev["coverage"]["sub_checks"]:
+        rows.append("| %s | %s | %s | %d | %d | %s |" % (pid, sc["name"], sc["mode"], sc["evaluations"], sc["distinct_nontrivial"], "yes" if sc.get("exhaustive") else ""))
+checks = "\n".join(rows)
+d = put(d, "CHECKS-TABLE", checks)
 d = put(d, "FINDINGS-TABLE", findings)
 d = put(d, "SEEDED-TABLE", seeded)
 open(os.path.join(ROOT, "DESIGN.md"), "w").write(d)
